@@ -72,8 +72,10 @@ type soKind struct {
 	MetaOnly bool
 	Thorough bool     // only in the thorough alphabet
 	PairOnly bool     // only used by the overlap families (not a member of the single-call product)
+	Demoted  bool     // success on this kind is recorded, not judged: the literal statement does not forbid it
 	Pad      bool     // followed by BigMiB of blanks
 	Garbage  bool     // BigMiB of 'x' instead of text
+	Tail     string   // written after the pad (only by the generated sh plugin that ignores SIGPIPE)
 	Versions []string // honest metadata kinds: the announced contract versions (hand-written expectation)
 	Text     func(cmd string) string
 }
@@ -114,7 +116,7 @@ var honestReply = map[string]string{
 var wrongTypeReply = map[string]string{
 	"get-plugin-metadata": metaJSON(map[string]string{"name": `5`}),
 	"describe-key":        `{"keyId":5,"keySpec":"RSA-2048"}`,
-	"generate-signature":  `{"keyId":"k1","signature":"!!not-base64!!","signingAlgorithm":"RSASSA-PSS-SHA-256","certificateChain":["Y2VydA=="]}`,
+	"generate-signature":  `{"keyId":"k1","signature":5,"signingAlgorithm":"RSASSA-PSS-SHA-256","certificateChain":["Y2VydA=="]}`,
 	"generate-envelope":   `{"signatureEnvelope":["x"],"signatureEnvelopeType":"application/jose+json"}`,
 	"verify-signature":    `{"verificationResults":[],"processedAttributes":[]}`,
 }
@@ -134,7 +136,7 @@ var honestReplyLong = map[string]string{
 	"describe-key":        `{"keyId":"the-third-and-longest-key-identifier","keySpec":"EC-521"}`,
 	"generate-signature":  `{"keyId":"the-third-and-longest-key-identifier","signature":"bG9uZ2VyIHNpZ25hdHVyZQ==","signingAlgorithm":"ECDSA-SHA-512","certificateChain":["bGVhZg==","cm9vdA=="]}`,
 	"generate-envelope":   `{"signatureEnvelope":"bG9uZ2VyIGVudmVsb3Bl","signatureEnvelopeType":"application/cose","annotations":{"third":"reply","x":"y"}}`,
-	"verify-signature":    `{"verificationResults":{"SIGNATURE_VERIFIER.TRUSTED_IDENTITY":{"success":false,"reason":"third reply"},"SIGNATURE_VERIFIER.REVOCATION_CHECK":{"success":true}},"processedAttributes":[]}`,
+	"verify-signature":    `{"verificationResults":{"SIGNATURE_VERIFIER.TRUSTED_IDENTITY":{"success":false,"reason":"third reply"},"SIGNATURE_VERIFIER.REVOCATION_CHECK":{"success":true}},"processedAttributes":["third"]}`,
 }
 
 func honest(cmd string) string {
@@ -160,7 +162,7 @@ func stdoutKinds(thorough bool) []soKind {
 		{Name: "empty", Label: soUndecodable, Text: constText("")},
 		{Name: "json-array", Label: soUndecodable, Text: constText("[1,2]")},
 		{Name: "member-wrong-type", Label: soUndecodable, Text: func(c string) string { return wrongTypeReply[c] }},
-		{Name: "valid-then-garbage", Label: soUndecodable, Text: func(c string) string { return honest(c) + "}xyz" }},
+		{Name: "valid-then-garbage", Label: soUndecodable, Demoted: true, Text: func(c string) string { return honest(c) + "}xyz" }},
 		{Name: "truncated", Label: soUndecodable, Thorough: true, Text: func(c string) string { h := honest(c); return h[:len(h)-1] }},
 		{Name: "json-string", Label: soUndecodable, Thorough: true, Text: constText(`"ok"`)},
 		{Name: "valid-b", Label: soHonest, PairOnly: true, Text: func(c string) string { return honestReplyB[c] }},
@@ -168,6 +170,9 @@ func stdoutKinds(thorough bool) []soKind {
 		{Name: "hashes-of-the-length-of-valid", Label: soUndecodable, PairOnly: true, Text: func(c string) string { return strings.Repeat("#", len(honest(c))) }},
 		{Name: "valid-plus-oversize-blanks", Label: soOversize, Pad: true, Text: honest},
 		{Name: "oversize-garbage", Label: soOversize, Garbage: true, Text: constText("")},
+		// a valid reply, blanks up to beyond the cap, then garbage: as a whole NOT a JSON value, although its first
+		// 64 MiB are one (a host that silently stops reading at the cap would take the prefix for the reply)
+		{Name: "valid-blanks-beyond-cap-then-garbage", Label: soOversize, Pad: true, Tail: "}xyz", PairOnly: true, Text: honest},
 	}
 	for _, f := range metaFields {
 		f := f
@@ -180,17 +185,20 @@ func stdoutKinds(thorough bool) []soKind {
 		if strings.HasPrefix(f[1], "[") {
 			empty = `[]`
 		}
-		ks = append(ks, soKind{Name: "meta-empty:" + f[0], Label: soInvalidMeta, Field: f[0], MetaOnly: true, Thorough: true,
+		// an empty or null member is arguably "present": judged only where another stated clause is broken too
+		// (name != file name, no supported contract version)
+		lenient := f[0] != "name" && f[0] != "supportedContractVersions"
+		ks = append(ks, soKind{Name: "meta-empty:" + f[0], Demoted: lenient, Label: soInvalidMeta, Field: f[0], MetaOnly: true, Thorough: true,
 			Text: func(string) string { return metaJSON(map[string]string{f[0]: empty}) }})
-		ks = append(ks, soKind{Name: "meta-null:" + f[0], Label: soInvalidMeta, Field: f[0], MetaOnly: true, Thorough: true,
+		ks = append(ks, soKind{Name: "meta-null:" + f[0], Demoted: lenient, Label: soInvalidMeta, Field: f[0], MetaOnly: true, Thorough: true,
 			Text: func(string) string { return metaJSON(map[string]string{f[0]: "null"}) }})
 	}
 	ks = append(ks,
 		soKind{Name: "meta-name-mismatch", Label: soInvalidMeta, Field: "name-mismatch", MetaOnly: true,
 			Text: func(string) string { return metaJSON(map[string]string{"name": `"other"`}) }},
-		soKind{Name: "meta-name-mismatch-case", Label: soInvalidMeta, Field: "name-mismatch", MetaOnly: true, Thorough: true,
+		soKind{Name: "meta-name-mismatch-case", Demoted: true, Label: soInvalidMeta, Field: "name-mismatch", MetaOnly: true, Thorough: true,
 			Text: func(string) string { return metaJSON(map[string]string{"name": `"C17P"`}) }},
-		soKind{Name: "meta-name-mismatch-prefixed", Label: soInvalidMeta, Field: "name-mismatch", MetaOnly: true, Thorough: true,
+		soKind{Name: "meta-name-mismatch-prefixed", Demoted: true, Label: soInvalidMeta, Field: "name-mismatch", MetaOnly: true, Thorough: true,
 			Text: func(string) string { return metaJSON(map[string]string{"name": `"notation-c17p"`}) }},
 		soKind{Name: "meta-unsupported-contract-version", Label: soInvalidMeta, Field: "unsupported-contract-version", MetaOnly: true,
 			Text: func(string) string { return metaJSON(map[string]string{"supportedContractVersions": `["2.0"]`}) }},
@@ -209,20 +217,21 @@ func stdoutKinds(thorough bool) []soKind {
 		raw       string
 		vers      []string
 		supported bool
+		lenient   bool // another denotation of version 1.0 (a numeric/trimming comparison would accept it): recorded only
 	}{
-		{`["1.1"]`, nil, false},
-		{`["1.0","2.0"]`, []string{"1.0", "2.0"}, true},
-		{`["2.0","1.0"]`, []string{"2.0", "1.0"}, true},
-		{`["1"]`, nil, false},
-		{`["1.0.0"]`, nil, false},
-		{`["01.0"]`, nil, false},
-		{`[" 1.0"]`, nil, false},
-		{`["1.10"]`, nil, false},
-		{`["1.1","1.2"]`, nil, false},
-		{`[]`, nil, false},
+		{`["1.1"]`, nil, false, false},
+		{`["1.0","2.0"]`, []string{"1.0", "2.0"}, true, false},
+		{`["2.0","1.0"]`, []string{"2.0", "1.0"}, true, false},
+		{`["1"]`, nil, false, true},
+		{`["1.0.0"]`, nil, false, true},
+		{`["01.0"]`, nil, false, true},
+		{`[" 1.0"]`, nil, false, true},
+		{`["1.10"]`, nil, false, false},
+		{`["1.1","1.2"]`, nil, false, false},
+		{`[]`, nil, false, false},
 	} {
 		v := v
-		k := soKind{Name: "meta-versions:" + v.raw, MetaOnly: true, Versions: v.vers,
+		k := soKind{Name: "meta-versions:" + v.raw, MetaOnly: true, Versions: v.vers, Demoted: v.lenient,
 			Text: func(string) string { return metaJSON(map[string]string{"supportedContractVersions": v.raw}) }}
 		if v.supported {
 			k.Label = soHonest
@@ -339,6 +348,8 @@ const (
 	tShStderr = "sh-desc-holds-stderr-only"
 	tShStdin  = "sh-desc-holds-stdin-only" // with req=large: the host's stdin writer blocks on a full pipe
 	tShSetsid = "sh-desc-setsid"           // descendant in its own session, holds stdout+stderr
+	// ignores SIGPIPE/EPIPE: keeps going when the host closes the pipe at the cap, and exits with the scripted code
+	tShIgnorePipe = "sh-ignores-sigpipe"
 	// prints its stderr COMPLETELY (then creates the file "printed"), and only then sleeps far past the context's end
 	tShErrSleep       = "sh-stderr-then-sleep-60s"
 	tShErrSleepNoTerm = "sh-stderr-then-sleep-60s-ignore-term"
